@@ -16,6 +16,10 @@ RULE = ("relayxlate: per 8 cases — 2 direct EthereumEventToEthBridgeClaim call
         "values (base-0 integer texts, separators, signs, hex receivers with and without prefix); prophecy ids of neighbouring "
         "(nonce, sender) pairs or AttributesToEthereumBridgeClaim; 1 composition case: the real msgServer.Lock/Burn on a real "
         "keeper set emits its event, the real parser translates it.  non-trivial = distinct input that was translated (not refused).  "
+        "Symbols include whitespace-padded and otherwise odd texts ('ETH ', ' usdt', tab/newline padded, inner blanks, blank-only, NUL, "
+        "JSON-special characters).  For every translated claim with a valid-UTF-8 symbol the content the chain derives from it "
+        "(CreateOracleClaimFromEthClaim -> CreateEthClaimFromOracleString) is read back and judged against the ORIGINAL event; pairs of "
+        "events differing in symbol padding / case / inner blanks (and sometimes amount, token, type) compare their content texts.  "
         "relaybatch: batches of 0-6 events (mixed lock/burn/other, one chain id and increasing nonces mostly, repeated nonces, "
         "malformed events at first/middle/last position, ASCII symbols) through the real handleEthereumEvent -> RelayToCosmos -> "
         "tx.BroadcastTx with an in-memory keyring and a recording stub node; claims decoded from the signed tx; non-trivial = "
@@ -44,13 +48,15 @@ UNPROVED = [
     "correspondence (real keepers, real event manager), not by a full ABCI (L2) run",
     "batch path: symbols of the relaybatch family are ASCII (the Unicode ToLower path is exercised by relayxlate only); signing, "
     "tx encoding and BroadcastTx are cosmos-sdk code (the claims are read back from the signed bytes)",
+    "claim content: the model packs the five content fields verbatim; the JSON codec of the content text is not modelled (tested: read-back "
+    "fields equal the event's, distinct events give distinct texts; symbols that are not valid UTF-8 are excluded because encoding/json replaces them)",
     "AttributesToEthereumBridgeClaim (replay helper; last-wins, no completeness check) is modelled and differential-tested, no theorem",
 ]
 MANIFEST = {
     "text": "Lean 4 theorems over a model of the relayer's two translation functions for every event field value and every attribute "
             "list: field fidelity in both directions, rejection of malformed events and of incomplete attribute lists, no-wrap narrowing "
             "below 2^63, prophecy-id injectivity per chain, burn symbol = attribute minus exactly the leading 'c' (iff), decimal "
-            "round trip through SetString, composition with the chain's own lock/burn emitters; and for the batch the relayer actually submits (handleEthereumEvent -> RelayToCosmos): one claim per submittable event, in order, each faithful to its own event, distinct ids.  Tied to the Go code by differential "
+            "round trip through SetString, composition with the chain's own lock/burn emitters; the content the chain derives from the relayed claim carries the event's fields with the symbol exactly as relayed (content_faithful, content_distinct); and for the batch the relayer actually submits (handleEthereumEvent -> RelayToCosmos): one claim per submittable event, in order, each faithful to its own event, distinct ids.  Tied to the Go code by differential "
             "execution of the real functions (incl. real ABI packing + logToEvent, the real msgServer emitting real events, and the real batch path with claims decoded from the signed transaction) and by "
             "evaluating the theorems' own decidable predicates on the implementation's outputs.",
     "note": "Trusted: Lean kernel (+propext, Classical.choice, Quot.sound); hand-written model tied only by the correspondence run; "
